@@ -398,7 +398,15 @@ impl GitignoreBuilder {
             let line = match line {
                 Ok(line) => line,
                 Err(err) => {
+                    // A line that is not valid UTF-8 cannot be used as a
+                    // glob, but the reader has consumed it, so the lines
+                    // after it still can be. Any other error ends the read.
+                    let bad_line =
+                        err.kind() == std::io::ErrorKind::InvalidData;
                     errs.push(Error::Io(err).tagged(path, lineno));
+                    if bad_line {
+                        continue;
+                    }
                     break;
                 }
             };
